@@ -98,7 +98,9 @@ def dict_eq(a, b):
 def layouts_space(rng, n):
     P = pool()
     statics = [{"a": P[0]}, {"a": P[1]}, {"a": P[0], "b": P[2]}, {"b": P[2], "a": P[0]}, {"a": P[3]}, {"a": P[0], "b": P[3]}, {},
-               {"a": P[4], "b": P[2]}, {"c": P[5], "a": P[0]}]
+               {"a": P[4], "b": P[2]}, {"c": P[5], "a": P[0]},
+               # the same (name, grid) pairs as {"a": P0} + special {"s": P2} / {"t": P2}, but with the zone in the OTHER table
+               {"a": P[0], "s": P[2]}, {"a": P[0], "t": P[2]}]
     sets = [set(), {"a"}, {"a", "b"}, {"b"}]
     specials = [{}, {"s": P[2]}, {"s": P[1]}, {"t": P[2]}, {"s": P[0]}, {"s": P[4]}]
     allc = list(itertools.product(statics, sets, sets, sets, specials))
@@ -112,7 +114,13 @@ def layouts_space(rng, n):
                     t = list(a)
                     t[i] = v
                     out.append(tuple(t))
-        return out[:n]
+        # always present: layouts with the same (name, grid) pairs and capability sets whose zone sits in different tables
+        moved = []
+        for nm in ("s", "t"):
+            for caps in ((set(), set(), set()), ({"a"}, {"a"}, set())):
+                moved.append(({"a": P[0], nm: P[2]}, *caps, {}))
+                moved.append(({"a": P[0]}, *caps, {nm: P[2]}))
+        return moved + out[:n - len(moved)]
     return allc
 
 
@@ -197,7 +205,7 @@ def run(ctx):
     # ArchSpec level
     some = built[: min(12, n)]
     specs = [ArchSpec(layout=L, float_constants=fc, int_constants=ic) for _, L in some
-             for fc in ({}, {"x": 1.0}, {"x": 2.0}, {"x": 1.0, "y": 0.5}, {"y": 0.5, "x": 1.0}, {"y": 0.5, "x": 1.0, "z": -2.0}, {"z": -2.0, "x": 1.0, "y": 0.5})
+             for fc in ({}, {"x": 1.0}, {"x": 2.0}, {"x": 1.0 * (1 + 0.6e-9)}, {"x": 1.0 * (1 + 1.2e-9)}, {"x": 1.0, "y": 0.5}, {"y": 0.5, "x": 1.0}, {"y": 0.5, "x": 1.0, "z": -2.0}, {"z": -2.0, "x": 1.0, "y": 0.5})
              for ic in ({}, {"n": 1}, {"n": 1, "m": 2, "k": 0}, {"k": 0, "m": 2, "n": 1})]
     # tables filled after construction (the way gemini.logical.get_spec extends a base spec)
     for _, L in some[:4]:
